@@ -340,7 +340,8 @@ def run(ctx):
     r.check(bool(enqs) and all(("self.stopping", False) in fsm[n.id] or ("not self.stopping", True) in fsm[n.id] for n in enqs),
             "%s#no-enqueue-after-stop" % sendm.qname, "send_messages() queues a request although the producer has been stopped",
             where(sendm, enqs[0].stmt if enqs else sendm.node), "send_messages() after stop(): the returned Deferred never fires")
-    lp = [n for n in scfg.nodes if any(call_name(c) == "stop" and call_recv(c) == "self._sendLooper" for c in n.calls())]
+    lp = [n for n in scfg.nodes if any(call_name(c) == "stop" and isinstance(c.func, ast.Attribute) and (
+        call_recv(c) == "self._sendLooper" or any(norm(e_) == "self._sendLooper" for _d, e_ in (value_leaves(scfg, n.id, c.func.value, params=stop.params) or ()))) for c in n.calls())]
     r.check(bool(lp), "%s#looper-stopped" % stop.qname, "stop() does not stop the periodic timer", where(stop, stop.node))
 
     # ---- R6 the thresholds compared by the dispatch test are the configured ones
